@@ -37,7 +37,8 @@ JudgeC12(t, k) ==
         Chk(t, "C12:visible-bf-is-the-flattened-bf", o.visible_ok),
         Chk(t, "C12:result-independent-of-sub-decay-order", o.orders_same),
         Chk(t, "C12:top-level-model-information-kept", o.meta_kept),
-        Chk(t, "C12:original-chain-unchanged", o.unchanged) >>)
+        Chk(t, "C12:original-chain-unchanged", o.unchanged),
+        Chk(t, "C12:the-same-object-flattened-again-answers-like-a-fresh-one", o.reuse_ok) >>)
 
 (* C11: chain round trip *)
 JudgeC11(t, k) ==
